@@ -19,7 +19,7 @@ for _m in (ep, ep_solo):
     # a handler that uses a name its module does not import has to fail here as it does for a user
     if hasattr(_m, "structure_from_dict"):
         _m.structure_from_dict = conv.structure_from_dict
-from cl05.models import Circle, Item, Labels, Other, Profile, Square  # noqa: E402
+from cl05.models import Circle, Color, Item, Labels, Other, Profile, Square  # noqa: E402
 
 
 class Resp:
@@ -100,7 +100,9 @@ def _item(i, has_name, name, n_tags):
 for _n, _r in [("get_item", Resp(200, {"id": 1, "displayName": "n", "tags": ["t"]})), ("list_items", Resp(200, [{"id": 1}])), ("get_alias", Resp(200, [{"id": 1}])),
                ("upsert_item", Resp(201, {"code": "c"})), ("upsert_reversed", Resp(201, {"code": "c"})), ("get_flavours", Resp(200, {"code": "c"}, ctype="application/hal+json")), ("get_vendor_item", Resp(200, {"id": 1})), ("get_with_default", Resp(200, {"id": 1})), ("get_shape", Resp(200, {"r": 1})),
                ("get_shape", Resp(200, {"side": 1})), ("get_label_sets", Resp(200, [{"a": "b"}])), ("get_labels", Resp(200, {"a": "b"})), ("get_profile", Resp(200, {"nick": "n"})),
-               ("get_maybe_items", Resp(200, [{"id": 1}]))]:
+               ("get_maybe_items", Resp(200, [{"id": 1}])), ("get_color", Resp(200, "red")), ("get_colors", Resp(200, ["red"])), ("get_colors_inline", Resp(200, ["red"])), ("get_stamp", Resp(200, "2024-03-09T14:30:00")),
+               ("get_stamps", Resp(200, ["2024-03-09T14:30:00"])), ("get_when", Resp(200, "2024-03-09T14:30:00")), ("get_day", Resp(200, "2024-02-29")), ("get_uid", Resp(200, "00000000-0000-0000-0000-000000000000")),
+               ("get_uids", Resp(200, ["00000000-0000-0000-0000-000000000000"]))]:
     try:
         call(_n, _r)
     except Exception:
@@ -199,6 +201,56 @@ def tw_nullable_bodies(which: int, has_nick: bool, nick: str, n: int, i: int) ->
     post: _
     """
     call("get_profile", Resp(200, {}))
+    return False
+
+
+STAMPS = ["2024-03-09T14:30:00", "1999-12-31T23:59:59.500000+00:00", "2024-01-02T03:04:05+02:00"]
+DAYS = ["2024-02-29", "1970-01-01"]
+UIDS = ["123e4567-e89b-12d3-a456-426614174000", "00000000-0000-0000-0000-000000000000"]
+COLORS = ["red", "dark-blue"]
+
+
+def ob_formatted_bodies(which: int, a: int, b: int, n: int) -> bool:
+    """
+    pre: 0 <= which <= 8 and 0 <= a <= 5 and 0 <= b <= 5 and 0 <= n <= 2
+    post: _
+    """
+    # a body that is a formatted string or an enum value comes back as the annotated Python type, not as the raw text
+    import datetime as dt
+    import uuid
+
+    if which <= 2:
+        txt = STAMPS[a % 3]
+        if which == 2:
+            docs = [STAMPS[(a + k) % 3] for k in range(n)]
+            v, _ = call("get_stamps", Resp(200, list(docs)))
+            return isinstance(v, list) and len(v) == n and all(isinstance(x, dt.datetime) and x == dt.datetime.fromisoformat(d) for x, d in zip(v, docs))
+        v, _ = call(["get_stamp", "get_when"][which], Resp(200, txt))
+        return isinstance(v, dt.datetime) and v == dt.datetime.fromisoformat(txt)
+    if which == 3:
+        v, _ = call("get_day", Resp(200, DAYS[a % 2]))
+        return isinstance(v, dt.date) and v.isoformat() == DAYS[a % 2]
+    if which == 4:
+        v, _ = call("get_uid", Resp(200, UIDS[a % 2]))
+        return isinstance(v, uuid.UUID) and str(v) == UIDS[a % 2]
+    if which == 5:
+        docs = [UIDS[(a + k) % 2] for k in range(n)]
+        v, _ = call("get_uids", Resp(200, list(docs)))
+        return isinstance(v, list) and len(v) == n and all(isinstance(x, uuid.UUID) and str(x) == d for x, d in zip(v, docs))
+    if which == 6:
+        v, _ = call("get_color", Resp(200, COLORS[a % 2]))
+        return isinstance(v, Color) and v.value == COLORS[a % 2]
+    docs = [COLORS[(a + k * b) % 2] for k in range(n)]
+    v, _ = call(["get_colors", "get_colors_inline"][which - 7], Resp(200, list(docs)))
+    return isinstance(v, list) and len(v) == n and all(isinstance(x, Color) and x.value == d for x, d in zip(v, docs))
+
+
+def tw_formatted_bodies(which: int, a: int, b: int, n: int) -> bool:
+    """
+    pre: 0 <= which <= 8 and 0 <= a <= 5 and 0 <= b <= 5 and 0 <= n <= 2
+    post: _
+    """
+    call("get_color", Resp(200, COLORS[a % 2]))
     return False
 
 
